@@ -407,7 +407,17 @@ impl Prop for C18 {
     }
 
     fn exec(&self, case: &Case, x: &mut Exec) {
-        let inst = case.inst.to_v1();
+        let mut inst = case.inst.to_v1();
+        // free text of the message (not part of the problem: the MPS file need not carry it, but it must not get in the
+        // way either) - several lines, lines that look like MPS syntax
+        if case.hash_seed % 5 == 0 {
+            let mut d = v1::instance::Description::default();
+            d.name = Some("two\nlines".into());
+            d.description = Some("first line\nROWS\n N  COST\nENDATA\n* not a comment\r\nlast".into());
+            d.authors = vec!["A\nB".into()];
+            inst.description = Some(d);
+            x.count("probe.multi_line_description");
+        }
         let path = x.path(FILE);
         let has_write_fault = case.faults.iter().any(|f| f.op == 0);
         let has_read_fault = case.faults.iter().any(|f| f.op == 1);
